@@ -1,6 +1,7 @@
 package main
 
 import (
+	"bufio"
 	"bytes"
 	"fmt"
 	"io"
@@ -114,6 +115,206 @@ func subStreamSequences() mon.Sub {
 			}
 			c.Classf("n=%d first-open=%v plan=%s", n, !hs[0].Fin && !ref.IsControl(hs[0].Op), plan.Kind)
 			c.Sample(det())
+		},
+	}
+}
+
+// srcKinds are the concrete io.Reader types an application hands to the
+// decoders: the decoding must not depend on which one it is.
+var srcKinds = []string{"chunker", "bufio16", "bufio19", "bufio64", "bufio4096", "bufio-over-bufio", "bytes.Reader", "bytes.Buffer", "readerOnly", "bufio16-used"}
+
+func mkSource(kind string, stream []byte, plan xport.Plan) (io.Reader, int) {
+	switch kind {
+	case "bufio16", "bufio19", "bufio64", "bufio4096":
+		var sz int
+		fmt.Sscanf(kind, "bufio%d", &sz)
+		return bufio.NewReaderSize(xport.NewChunker(stream, plan), sz), 0
+	case "bufio-over-bufio":
+		return bufio.NewReaderSize(bufio.NewReaderSize(xport.NewChunker(stream, plan), 64), 16), 0
+	case "bytes.Reader":
+		return bytes.NewReader(stream), 0
+	case "bytes.Buffer":
+		return bytes.NewBuffer(append([]byte(nil), stream...)), 0
+	case "readerOnly":
+		return readerOnly{xport.NewChunker(stream, plan)}, 0
+	case "bufio16-used":
+		// a buffered reader that already served some bytes of the connection (a
+		// handshake, say): its buffer is part-consumed when the first header comes
+		pre := []byte("HTTP/1.1 101\r\n\r\n")[:11]
+		br := bufio.NewReaderSize(xport.NewChunker(append(append([]byte(nil), pre...), stream...), plan), 16)
+		io.ReadFull(br, make([]byte, len(pre)))
+		return br, len(pre)
+	}
+	return xport.NewChunker(stream, plan), 0
+}
+
+// subSourceKinds: one byte stream (a sequence of frames, possibly cut short),
+// decoded by ws.ReadHeader(+payload reads), ws.ReadFrame and the streaming
+// Reader from every kind of source under one chunk plan: the decoded headers,
+// payloads and the final error class are those of the reference codec.
+func subSourceKinds() mon.Sub {
+	return mon.Sub{
+		Name: "source-kinds", Required: true,
+		N: func(t string) int {
+			if t == "thorough" {
+				return 60000
+			}
+			return 2500
+		},
+		Do: func(c *mon.C) {
+			n := 1 + c.Rng.Intn(4)
+			var hs []ref.Header
+			var payloads, wire [][]byte // as sent by the application / as on the wire (masked)
+			var stream []byte
+			var ends []int
+			for i := 0; i < n; i++ {
+				h := ref.Header{Fin: true, Rsv: byte(c.Rng.Intn(8)), Op: byte(c.Rng.Intn(16)), Masked: c.Rng.Intn(2) == 0}
+				if !ref.IsControl(h.Op) {
+					h.Fin = c.Rng.Intn(2) == 0
+				}
+				if h.Masked {
+					c.Rng.Read(h.Mask[:])
+				}
+				p := make([]byte, []int{0, 1, 2, 5, 9, 14, 125, 126, 127, 200, 65535, 65536}[c.Rng.Intn(12)])
+				if len(p) > 60000 && c.Rng.Intn(3) != 0 {
+					p = p[:3]
+				}
+				c.Rng.Read(p)
+				h.Length = int64(len(p))
+				hs, payloads = append(hs, h), append(payloads, p)
+				enc := ref.Frame{H: h, Payload: p}.Encode()
+				wire = append(wire, enc[len(enc)-len(p):])
+				stream = append(stream, enc...)
+				ends = append(ends, len(stream))
+			}
+			whole := len(stream)
+			if c.Rng.Intn(3) == 0 {
+				stream = stream[:c.Rng.Intn(len(stream)+1)] // the peer went away mid-stream
+			}
+			complete := 0
+			for complete < n && ends[complete] <= len(stream) {
+				complete++
+			}
+			// after the complete frames: clean end exactly on a frame boundary, else a short one
+			wantEnd := io.ErrUnexpectedEOF
+			if len(stream) == whole || (complete > 0 && ends[complete-1] == len(stream)) || len(stream) == 0 {
+				wantEnd = io.EOF
+			}
+			plans := xport.Plans(c.Rng.Int63(), nil)
+			plan := plans[c.Rng.Intn(len(plans))]
+			det := func(kind string) map[string]interface{} {
+				var d []string
+				for _, h := range hs {
+					d = append(d, h.String())
+				}
+				return map[string]interface{}{"headers": d, "plan": plan.String(), "source": kind, "stream_len": len(stream), "whole_len": whole, "complete_frames": complete}
+			}
+			for _, kind := range srcKinds {
+				// (1) ReadHeader + payload reads
+				src, _ := mkSource(kind, stream, plan)
+				c.Count(1)
+				i := 0
+				var end error
+				for {
+					g, err := ws.ReadHeader(src)
+					if err != nil {
+						end = err
+						break
+					}
+					if i >= n || wsx.FromWS(g) != hs[i] {
+						c.Fail("source-kinds/readheader/fields", fmt.Sprintf("ws.ReadHeader on a %s source decoded header %d as %s", kind, i, wsx.FromWS(g)), det(kind))
+						return
+					}
+					p := make([]byte, len(payloads[i]))
+					if _, err := io.ReadFull(src, p); err != nil {
+						if i < complete {
+							c.Fail("source-kinds/readheader/payload-error", fmt.Sprintf("payload of frame %d after ws.ReadHeader on a %s source: %v", i, kind, err), det(kind))
+							return
+						}
+						end = io.ErrUnexpectedEOF
+						break
+					}
+					if !bytes.Equal(p, wire[i]) {
+						c.Fail("source-kinds/readheader/payload", fmt.Sprintf("payload of frame %d differs after ws.ReadHeader on a %s source (header over- or under-read)", i, kind), det(kind))
+						return
+					}
+					i++
+				}
+				if i != complete {
+					c.Fail("source-kinds/readheader/count", fmt.Sprintf("ws.ReadHeader on a %s source decoded %d frames, the stream holds %d complete ones (ended with %v)", kind, i, complete, end), det(kind))
+					return
+				}
+				if end != wantEnd {
+					c.Fail("source-kinds/readheader/end", fmt.Sprintf("ws.ReadHeader on a %s source ended with %v, want %v", kind, end, wantEnd), det(kind))
+					return
+				}
+				// (2) ReadFrame
+				src, _ = mkSource(kind, stream, plan)
+				c.Count(1)
+				i = 0
+				for {
+					f, err := ws.ReadFrame(src)
+					if err != nil {
+						end = err
+						break
+					}
+					if i >= complete || wsx.FromWS(f.Header) != hs[i] || !bytes.Equal(f.Payload, wire[i]) {
+						c.Fail("source-kinds/readframe/frame", fmt.Sprintf("ws.ReadFrame on a %s source decoded frame %d as %s with %d payload bytes", kind, i, wsx.FromWS(f.Header), len(f.Payload)), det(kind))
+						return
+					}
+					i++
+				}
+				if i != complete || end != wantEnd {
+					c.Fail("source-kinds/readframe/end", fmt.Sprintf("ws.ReadFrame on a %s source decoded %d frames and ended with %v; want %d and %v", kind, i, end, complete, wantEnd), det(kind))
+					return
+				}
+				// (3) the streaming Reader (parser only)
+				src, _ = mkSource(kind, stream, plan)
+				c.Count(1)
+				rd := &wsutil.Reader{Source: src, SkipHeaderCheck: true}
+				open, skipped := false, false
+				i = 0
+				for {
+					g, err := rd.NextFrame()
+					if err != nil {
+						end = err
+						break
+					}
+					if i >= n || wsx.FromWS(g) != hs[i] {
+						c.Fail("source-kinds/stream/fields", fmt.Sprintf("Reader.NextFrame on a %s source decoded header %d as %s", kind, i, wsx.FromWS(g)), det(kind))
+						return
+					}
+					ctl := ref.IsControl(hs[i].Op)
+					// (the payload of a control frame inside an open message is left to the
+					// Reader, which drains it on the next call: a cut one shows up one call later)
+					skipped = ctl && open && len(payloads[i]) > 0
+					if !(ctl && open) {
+						p := make([]byte, len(payloads[i]))
+						if _, err := io.ReadFull(readerOnly{rd}, p); err != nil && len(p) > 0 {
+							end = err
+							break
+						}
+						if !bytes.Equal(p, payloads[i]) {
+							c.Fail("source-kinds/stream/payload", fmt.Sprintf("payload of frame %d differs through the Reader on a %s source", i, kind), det(kind))
+							return
+						}
+					}
+					if !ctl {
+						open = !hs[i].Fin
+					}
+					i++
+				}
+				if i != complete && !(skipped && i == complete+1) {
+					c.Fail("source-kinds/stream/count", fmt.Sprintf("Reader on a %s source decoded %d frames, the stream holds %d complete ones (ended with %v)", kind, i, complete, end), det(kind))
+					return
+				}
+				if end != io.EOF && end != io.ErrUnexpectedEOF {
+					c.Fail("source-kinds/stream/end", fmt.Sprintf("Reader on a %s source ended with %v", kind, end), det(kind))
+					return
+				}
+			}
+			c.Classf("n=%d cut=%v plan=%s", n, len(stream) != whole, plan.Kind)
+			c.Sample(det("all"))
 		},
 	}
 }
